@@ -6,8 +6,11 @@ package main
 // of 0–5 tokens with 0–4 variables, a delimiter from {".", "/", ":", "-", "__"}) is
 // written as IDL to a scratch directory and compiled IN-PROCESS by the real compiler
 // (compiler.Compile) for go, java, dart, py, py:asyncio, py:tornado.  The emitted
-// publisher / subscriber sources are read back, the `op`, `prefix`, `topic` (and
-// delimiter constant) expressions are extracted by per-language line patterns and
+// publisher / subscriber sources are read back as FUNCTIONS (parameter lists, forwarding
+// calls, method tables; see "extraction" below): every public entry point (13 per
+// operation) is called with pairwise different argument values, the i-th argument bound
+// to the i-th parameter and followed through the forwarding calls to the `op`, `prefix`,
+// `topic` (and delimiter constant) expressions, which are
 // evaluated by an evaluator of the target language's formatting construct written
 // here (Go: the real fmt.Sprintf; Java String.format, Python str.format, Dart string
 // interpolation: small interpreters of the %s / {} / $name fragment that flag
@@ -17,7 +20,7 @@ package main
 //
 // Line:   c08 <prefix hex|-> <scope name hex> <delim hex> <op hex,…> <value hex,…|.>
 // Output: err:badvar | err:parse | err:compile | excluded:<class> |
-//         ok vars=<hex,…|.> <op hex>:<lang.role>=<template>@<topic hex|fail>;… (one group per operation)
+//         ok vars=<hex,…|.> <op hex>:<lang.entry>=<template>@<topic hex|fail>;… (one group per operation)
 //
 // ORACLE (independent of the Lean model; it is the property): for every operation
 // and language the publisher topic equals the subscriber topic; every language's
@@ -55,8 +58,10 @@ type c08Case struct {
 
 var c08Delims = []string{".", "/", ":", "-", "__"}
 
-// lang.role columns in output order (java.sub covers both the plain and the Throwable variant).
-var c08Cols = []string{"go.pub", "go.sub", "java.pub", "java.sub", "dart.pub", "dart.sub", "py.pub", "pyaio.pub", "pyaio.sub", "pytor.pub", "pytor.sub"}
+// lang.entry-point columns in output order (sube = Go Subscribe<Op>Errorable, subt = Java subscribe<Op>Throwable);
+// the internal functions behind the middleware method table (publish<Op>, _publish<Op>, _publish_<Op>) are
+// evaluated as well and must agree with the public entry point of their column.
+var c08Cols = []string{"go.pub", "go.sub", "go.sube", "java.pub", "java.sub", "java.subt", "dart.pub", "dart.sub", "py.pub", "pyaio.pub", "pyaio.sub", "pytor.pub", "pytor.sub"}
 
 var c08Gens = []struct{ gen, key string }{
 	{"go", "go"}, {"java", "java"}, {"dart", "dart"}, {"py", "py"}, {"py:asyncio", "pyaio"}, {"py:tornado", "pytor"},
@@ -388,31 +393,79 @@ func evalDart(expr string, env c08Env) (string, bool) {
 }
 
 // ---------- extraction ----------
+//
+// The emitted sources are read as a set of FUNCTIONS (header with its parameter list), each of
+// which either contains the op / prefix / topic lines or only forwards its arguments to another
+// function (directly: Go Subscribe<Op> -> Subscribe<Op>Errorable, Java Client.publish<Op> ->
+// proxy.publish<Op>; or through the middleware method table: Go p.methods["publish<Op>"].Invoke,
+// Dart this._methods['<Op>']!([…]), Python self._methods['publish_<Op>']([…])). A topic is always
+// evaluated from an entry point inwards: the i-th ARGUMENT of the call is bound to the i-th
+// declared parameter, forwarded argument lists are evaluated in that binding and bound to the
+// callee's parameters, and the names in the prefix expression are looked up in the innermost
+// binding. So a permuted, dropped or duplicated variable anywhere on the way changes the topic
+// (the runtime values and the markers are pairwise different).
 
 type c08Triple struct {
-	role              string
 	op, prefix, topic string // right-hand sides as emitted
+}
+
+type c08Func struct {
+	role, name string // role: pub | sub
+	params     []string
+	triple     *c08Triple
+	hasFwd     bool
+	fwdTable   bool // callee named by a key of the method table
+	fwdCallee  string
+	fwdArgs    []string
+}
+
+type c08Unit struct { // one generated tree
+	lang   string
+	funcs  []*c08Func
+	table  map[string]string // role+" "+key -> function name
+	delims map[string]string // role -> delimiter constant's right-hand side
 }
 
 type c08Pat struct {
 	op, prefix, topic, delim *regexp.Regexp
+	header                   *regexp.Regexp // group 1 = function name; the match ends at the opening parenthesis
+	bodyOpens                string         // what a function DEFINITION's header line ends with
+	paramName                func(piece string) string
+	fwdDirect, fwdTable      *regexp.Regexp                 // group 1 = callee / key; the match ends at the opening bracket of the argument list
+	table                    *regexp.Regexp                 // group 1 = key, group 2 = function
 	role                     func(line, file string) string // "" = unchanged
 	eval                     func(expr string, env c08Env) (string, bool)
 	delimName                string
 }
 
+func lastWord(s string) string {
+	f := strings.Fields(s)
+	if len(f) == 0 {
+		return ""
+	}
+	return f[len(f)-1]
+}
+
 var c08Pats = map[string]*c08Pat{
 	"go": {
-		op:     regexp.MustCompile(`^\s*op := (".*")$`),
-		prefix: regexp.MustCompile(`^\s*prefix := (.*)$`),
-		topic:  regexp.MustCompile(`^\s*topic := (.*)$`),
+		op:        regexp.MustCompile(`^\s*op := (".*")$`),
+		prefix:    regexp.MustCompile(`^\s*prefix := (.*)$`),
+		topic:     regexp.MustCompile(`^\s*topic := (.*)$`),
+		header:    regexp.MustCompile(`^func \(\w+ \*?\w+\) (\w+)\(`),
+		bodyOpens: "{",
+		paramName: func(p string) string { return strings.Fields(p + " _")[0] },
+		fwdDirect: regexp.MustCompile(`^\s*return \w+\.(\w+)\(`),
+		fwdTable:  regexp.MustCompile(`\.methods\["(\w+)"\]\.Invoke\(\[\]interface\{\}\{`),
+		table:     regexp.MustCompile(`methods\["(\w+)"\] = frugal\.NewMethod\(\w+, \w+\.(\w+),`),
 		role: func(line, file string) string {
-			if strings.HasPrefix(line, "func (") {
+			if strings.HasPrefix(line, "func ") {
 				switch {
-				case strings.Contains(line, "Publisher) "):
+				case strings.HasPrefix(line, "func (") && strings.Contains(line, "Publisher) "):
 					return "pub"
-				case strings.Contains(line, "Subscriber) "):
+				case strings.HasPrefix(line, "func (") && strings.Contains(line, "Subscriber) "):
 					return "sub"
+				case strings.Contains(line, "Publisher("): // constructor: fills the publisher's method table
+					return "pub"
 				}
 				return "none"
 			}
@@ -421,10 +474,14 @@ var c08Pats = map[string]*c08Pat{
 		eval: evalGo,
 	},
 	"java": {
-		op:     regexp.MustCompile(`^\s*(?:final )?String op = (".*");$`),
-		prefix: regexp.MustCompile(`^\s*(?:final )?String prefix = (.*);$`),
-		topic:  regexp.MustCompile(`^\s*(?:final )?String topic = (.*);$`),
-		delim:  regexp.MustCompile(`^\s*private static final String DELIMITER = (".*");$`),
+		op:        regexp.MustCompile(`^\s*(?:final )?String op = (".*");$`),
+		prefix:    regexp.MustCompile(`^\s*(?:final )?String prefix = (.*);$`),
+		topic:     regexp.MustCompile(`^\s*(?:final )?String topic = (.*);$`),
+		delim:     regexp.MustCompile(`^\s*private static final String DELIMITER = (".*");$`),
+		header:    regexp.MustCompile(`^\s*public [\w.<>\[\]]+ (\w+)\(`),
+		bodyOpens: "{",
+		paramName: lastWord,
+		fwdDirect: regexp.MustCompile(`^\s*(?:return )?proxy\.(\w+)\(`),
 		role: func(line, file string) string {
 			switch {
 			case strings.HasSuffix(file, "Publisher.java"):
@@ -437,10 +494,20 @@ var c08Pats = map[string]*c08Pat{
 		eval: evalJava, delimName: "DELIMITER",
 	},
 	"dart": {
-		op:     regexp.MustCompile(`^\s*var op = ('.*');$`),
-		prefix: regexp.MustCompile(`^\s*var prefix = ('.*');$`),
-		topic:  regexp.MustCompile(`^\s*var topic = ('.*');$`),
-		delim:  regexp.MustCompile(`^const String delimiter = ('.*');$`),
+		op:        regexp.MustCompile(`^\s*var op = ('.*');$`),
+		prefix:    regexp.MustCompile(`^\s*var prefix = ('.*');$`),
+		topic:     regexp.MustCompile(`^\s*var topic = ('.*');$`),
+		delim:     regexp.MustCompile(`^const String delimiter = ('.*');$`),
+		header:    regexp.MustCompile(`^\s*Future(?:<[\w.<>]+>)? (\w+)\(`),
+		bodyOpens: "{",
+		paramName: func(p string) string {
+			if i := strings.IndexByte(p, '('); i >= 0 { // function-typed parameter: dynamic onX(…)
+				p = p[:i]
+			}
+			return lastWord(p)
+		},
+		fwdTable: regexp.MustCompile(`_methods\['(\w+)'\]!?\(\[`),
+		table:    regexp.MustCompile(`_methods\['(\w+)'\] = frugal\.FMethod\(this\.(\w+),`),
 		role: func(line, file string) string {
 			if strings.HasPrefix(line, "class ") {
 				switch {
@@ -456,10 +523,20 @@ var c08Pats = map[string]*c08Pat{
 		eval: evalDart, delimName: "delimiter",
 	},
 	"py": {
-		op:     regexp.MustCompile(`^\s*op = ('.*')$`),
-		prefix: regexp.MustCompile(`^\s*prefix = (.*)$`),
-		topic:  regexp.MustCompile(`^\s*topic = (.*)$`),
-		delim:  regexp.MustCompile(`^\s*_DELIMITER = ('.*')$`),
+		op:        regexp.MustCompile(`^\s*op = ('.*')$`),
+		prefix:    regexp.MustCompile(`^\s*prefix = (.*)$`),
+		topic:     regexp.MustCompile(`^\s*topic = (.*)$`),
+		delim:     regexp.MustCompile(`^\s*_DELIMITER = ('.*')$`),
+		header:    regexp.MustCompile(`^\s*(?:async )?def (\w+)\(`),
+		bodyOpens: ":",
+		paramName: func(p string) string {
+			if i := strings.IndexByte(p, '='); i >= 0 {
+				p = p[:i]
+			}
+			return strings.TrimSpace(p)
+		},
+		fwdTable: regexp.MustCompile(`self\._methods\['(\w+)'\]\(\[`),
+		table:    regexp.MustCompile(`'(\w+)': Method\(self\.(\w+),`),
 		role: func(line, file string) string {
 			switch {
 			case strings.HasSuffix(file, "_publisher.py"):
@@ -473,11 +550,51 @@ var c08Pats = map[string]*c08Pat{
 	},
 }
 
-// extract walks one generated tree and returns the (role, op, prefix, topic) triples and,
-// per role, the delimiter constant's right-hand side.
-func c08Extract(dir, lang string) (triples []c08Triple, delims map[string]string, err error) {
+// bracketed returns the text between the bracket at s[open] and its partner (or the end of the
+// line when the list continues on the next line: a closure argument) and what follows it.
+func bracketed(s string, open int) (inside, rest string) {
+	depth := 0
+	for i := open; i < len(s); i++ {
+		switch s[i] {
+		case '(', '[', '{':
+			depth++
+		case ')', ']', '}':
+			depth--
+			if depth == 0 {
+				return s[open+1 : i], s[i+1:]
+			}
+		}
+	}
+	return s[open+1:], ""
+}
+
+// splitTop splits at commas that are not inside brackets.
+func splitTop(s string) []string {
+	var out []string
+	depth, start := 0, 0
+	for i := 0; i < len(s); i++ {
+		switch s[i] {
+		case '(', '[', '{':
+			depth++
+		case ')', ']', '}':
+			depth--
+		case ',':
+			if depth == 0 {
+				out = append(out, strings.TrimSpace(s[start:i]))
+				start = i + 1
+			}
+		}
+	}
+	if t := strings.TrimSpace(s[start:]); t != "" || len(out) > 0 {
+		out = append(out, t)
+	}
+	return out
+}
+
+// extract reads one generated tree into functions, method table and delimiter constants.
+func c08Extract(dir, lang string) (*c08Unit, error) {
 	pat := c08Pats[lang]
-	delims = map[string]string{}
+	u := &c08Unit{lang: lang, table: map[string]string{}, delims: map[string]string{}}
 	var files []string
 	filepath.Walk(dir, func(p string, info os.FileInfo, e error) error {
 		if e == nil && !info.IsDir() {
@@ -489,12 +606,12 @@ func c08Extract(dir, lang string) (triples []c08Triple, delims map[string]string
 	for _, p := range files {
 		data, e := os.ReadFile(p)
 		if e != nil {
-			return nil, nil, e
+			return nil, e
 		}
 		role := "none"
-		fileDelim := ""
-		var cur c08Triple
-		var fileTriples []c08Triple
+		fileDelim, sawTopic := "", false
+		var cur *c08Func
+		var tr c08Triple
 		for _, line := range strings.Split(string(data), "\n") {
 			line = strings.TrimRight(line, "\r")
 			if r := pat.role(line, p); r != "" {
@@ -504,28 +621,189 @@ func c08Extract(dir, lang string) (triples []c08Triple, delims map[string]string
 				if m := pat.delim.FindStringSubmatch(line); m != nil {
 					fileDelim = m[1]
 					if lang == "java" || lang == "py" {
-						delims[role] = m[1]
+						u.delims[role] = m[1]
 					}
 				}
 			}
+			if role == "none" {
+				cur = nil
+				continue
+			}
+			if pat.table != nil {
+				if m := pat.table.FindStringSubmatch(line); m != nil {
+					u.table[role+" "+m[1]] = m[2]
+				}
+			}
+			if loc := pat.header.FindStringSubmatchIndex(line); loc != nil {
+				inside, rest := bracketed(line, loc[1]-1)
+				if strings.HasSuffix(strings.TrimSpace(rest), pat.bodyOpens) { // a definition, not an interface declaration
+					cur = &c08Func{role: role, name: line[loc[2]:loc[3]]}
+					for _, piece := range splitTop(inside) {
+						if n := pat.paramName(piece); !(lang == "py" && n == "self") {
+							cur.params = append(cur.params, n)
+						}
+					}
+					u.funcs = append(u.funcs, cur)
+					tr = c08Triple{}
+					continue
+				}
+			}
+			if cur == nil {
+				continue
+			}
 			if m := pat.op.FindStringSubmatch(line); m != nil {
-				cur.op = m[1]
+				tr.op = m[1]
 			}
 			if m := pat.prefix.FindStringSubmatch(line); m != nil {
-				cur.prefix = m[1]
+				tr.prefix = m[1]
 			}
-			if m := pat.topic.FindStringSubmatch(line); m != nil && role != "none" {
-				cur.topic, cur.role = m[1], role
-				fileTriples = append(fileTriples, cur)
-				cur = c08Triple{}
+			if m := pat.topic.FindStringSubmatch(line); m != nil && cur.triple == nil {
+				tr.topic = m[1]
+				t := tr
+				cur.triple = &t
+				sawTopic = true
+			}
+			if cur.triple == nil && !cur.hasFwd {
+				for _, fw := range []struct {
+					re    *regexp.Regexp
+					table bool
+				}{{pat.fwdTable, true}, {pat.fwdDirect, false}} {
+					if fw.re == nil {
+						continue
+					}
+					if loc := fw.re.FindStringSubmatchIndex(line); loc != nil {
+						inside, _ := bracketed(line, loc[1]-1)
+						cur.hasFwd, cur.fwdTable, cur.fwdCallee, cur.fwdArgs = true, fw.table, line[loc[2]:loc[3]], splitTop(inside)
+						break
+					}
+				}
 			}
 		}
-		if lang == "dart" && len(fileTriples) > 0 {
-			delims["pub"], delims["sub"] = fileDelim, fileDelim
+		if lang == "dart" && sawTopic {
+			u.delims["pub"], u.delims["sub"] = fileDelim, fileDelim
 		}
-		triples = append(triples, fileTriples...)
 	}
-	return triples, delims, nil
+	return u, nil
+}
+
+const c08Opaque = "\x00opaque" // the value of an argument that is not a plain name (context, message, handler closure)
+
+// evalEntry calls function f with the positional values pos, following forwarding calls.
+func (u *c08Unit) evalEntry(f *c08Func, pos []string, depth int) (opName, topic string, ok bool) {
+	if len(f.params) != len(pos) || depth > 4 {
+		return "", "", false
+	}
+	env := c08Env{}
+	for i, n := range f.params {
+		if _, dup := env[n]; dup {
+			return "", "", false
+		}
+		env[n] = pos[i]
+	}
+	if f.triple != nil {
+		return u.evalTriple(*f.triple, u.delims[f.role], env)
+	}
+	if !f.hasFwd {
+		return "", "", false
+	}
+	name := f.fwdCallee
+	if f.fwdTable {
+		var found bool
+		if name, found = u.table[f.role+" "+f.fwdCallee]; !found {
+			return "", "", false
+		}
+	}
+	args := make([]string, len(f.fwdArgs))
+	for i, a := range f.fwdArgs {
+		if v, bound := env[a]; bound && c08Ident.MatchString(a) {
+			args[i] = v
+		} else {
+			args[i] = c08Opaque
+		}
+	}
+	var callee *c08Func
+	for _, g := range u.funcs {
+		if g != f && g.role == f.role && g.name == name && (callee == nil || (callee.triple == nil && g.triple != nil)) {
+			callee = g
+		}
+	}
+	if callee == nil {
+		return "", "", false
+	}
+	return u.evalEntry(callee, args, depth+1)
+}
+
+// opOf: the operation an entry point belongs to = the op literal of the topic lines it reaches.
+func (u *c08Unit) opOf(f *c08Func, depth int) string {
+	if f.triple != nil {
+		o, _ := c08Pats[u.lang].eval(f.triple.op, c08Env{})
+		return o
+	}
+	if !f.hasFwd || depth > 4 {
+		return ""
+	}
+	name := f.fwdCallee
+	if f.fwdTable {
+		name = u.table[f.role+" "+f.fwdCallee]
+	}
+	var callee *c08Func
+	for _, g := range u.funcs {
+		if g != f && g.role == f.role && g.name == name && (callee == nil || (callee.triple == nil && g.triple != nil)) {
+			callee = g
+		}
+	}
+	if callee == nil {
+		return ""
+	}
+	return u.opOf(callee, depth+1)
+}
+
+// evalTriple evaluates the op / prefix / topic lines in the binding env (parameter name -> value).
+func (u *c08Unit) evalTriple(t c08Triple, delimExpr string, env c08Env) (opName, topic string, ok bool) {
+	pat := c08Pats[u.lang]
+	opName, ok = pat.eval(t.op, c08Env{})
+	if !ok {
+		return "", "", false
+	}
+	// a name bound to something that is not a string (context, message, handler) is not part of the
+	// binding the prefix may use: such a use is flagged by the evaluators as an unbound name
+	penv := c08Env{}
+	for n, v := range env {
+		if v != c08Opaque {
+			penv[n] = v
+		}
+	}
+	pv, ok := pat.eval(t.prefix, penv)
+	if !ok {
+		return opName, "", false
+	}
+	tenv := c08Env{"prefix": pv, "op": opName}
+	if pat.delimName != "" {
+		dv, ok := pat.eval(delimExpr, c08Env{})
+		if !ok {
+			return opName, "", false
+		}
+		tenv[pat.delimName] = dv
+	}
+	topic, ok = pat.eval(t.topic, tenv)
+	return opName, topic, ok
+}
+
+// column of an entry point: pub | sub | sube (Go Subscribe<Op>Errorable) | subt (Java subscribe<Op>Throwable)
+func c08Kind(f *c08Func, opName string) string {
+	n := strings.ToLower(strings.TrimLeft(f.name, "_"))
+	op := strings.ToLower(opName)
+	switch {
+	case f.role == "pub" && (n == "publish"+op || n == "publish_"+op):
+		return "pub"
+	case f.role == "sub" && (n == "subscribe"+op || n == "subscribe_"+op):
+		return "sub"
+	case f.role == "sub" && n == "subscribe"+op+"errorable":
+		return "sube"
+	case f.role == "sub" && n == "subscribe"+op+"throwable":
+		return "subt"
+	}
+	return ""
 }
 
 // private-use runes delimit a variable marker
@@ -553,35 +831,6 @@ func c08Template(s string) string {
 		return "E"
 	}
 	return strings.Join(segs, ",")
-}
-
-// evalTriple evaluates one extracted triple with the given variable values.
-func c08EvalTriple(lang string, t c08Triple, delimExpr string, varNames, vals []string) (opName, topic string, ok bool) {
-	pat := c08Pats[lang]
-	env := c08Env{}
-	for i, n := range varNames {
-		if i < len(vals) {
-			env[n] = vals[i]
-		}
-	}
-	opName, ok = pat.eval(t.op, c08Env{})
-	if !ok {
-		return "", "", false
-	}
-	pv, ok := pat.eval(t.prefix, env)
-	if !ok {
-		return opName, "", false
-	}
-	tenv := c08Env{"prefix": pv, "op": opName}
-	if pat.delimName != "" {
-		dv, ok := pat.eval(delimExpr, c08Env{})
-		if !ok {
-			return opName, "", false
-		}
-		tenv[pat.delimName] = dv
-	}
-	topic, ok = pat.eval(t.topic, tenv)
-	return opName, topic, ok
 }
 
 // ---------- running the real compiler ----------
@@ -671,19 +920,40 @@ func c08RunIDL(idl, delim string, ops, vals []string) (res c08Result) {
 		if strings.HasPrefix(lang, "py") {
 			lang = "py"
 		}
-		triples, delims, err := c08Extract(outDir, lang)
+		unit, err := c08Extract(outDir, lang)
 		if err != nil {
 			res.status = "err:compile"
 			return
 		}
-		for _, t := range triples {
-			opName, mt, ok1 := c08EvalTriple(lang, t, delims[t.role], res.vars, markers(len(res.vars)))
-			_, vt, ok2 := c08EvalTriple(lang, t, delims[t.role], res.vars, vals)
-			col := g.key + "." + t.role
+		nv := len(res.vars)
+		call := func(f *c08Func, vs []string) (string, string, bool) {
+			if len(vs) < nv {
+				return "", "", false
+			}
+			pos := append([]string{}, vs[:nv]...)
+			if f.role == "pub" { // Publish<Op>(ctx, vars…, req)
+				pos = append(append([]string{c08Opaque}, pos...), c08Opaque)
+			} else { // Subscribe<Op>(vars…, handler)
+				pos = append(pos, c08Opaque)
+			}
+			return unit.evalEntry(f, pos, 0)
+		}
+		for _, f := range unit.funcs {
+			if f.triple == nil && !f.hasFwd {
+				continue
+			}
+			opName := unit.opOf(f, 0)
+			_, mt, ok1 := call(f, markers(nv))
+			_, vt, ok2 := call(f, vals)
+			kind := c08Kind(f, opName)
+			if kind == "" {
+				continue
+			}
+			col := g.key + "." + kind
 			if res.cells[opName] == nil {
 				res.cells[opName] = map[string]*c08Cell{}
 			}
-			cell := &c08Cell{found: true, ok: ok1 && ok2 && len(vals) >= len(res.vars)}
+			cell := &c08Cell{found: true, ok: ok1 && ok2}
 			if cell.ok {
 				cell.tmpl, cell.topic = c08Template(mt), vt
 			}
@@ -767,16 +1037,19 @@ func c08Oracle(c c08Case, r c08Result) (fails []c08Fail, knownTitle bool) {
 		}
 		// publisher = subscriber, per language
 		for _, l := range []string{"go", "java", "dart", "pyaio", "pytor"} {
-			p, s := get(l+".pub"), get(l+".sub")
-			if p == nil || s == nil {
-				continue // extraction failed: a disagreement with the model, not a verdict of the oracle
-			}
-			if p.conflict || s.conflict {
-				fails = append(fails, c08Fail{"two occurrences of the same operation's topic differ within one language", l + " op " + op})
-				continue
-			}
-			if p.ok && s.ok && (p.topic != s.topic || p.tmpl != s.tmpl) {
-				fails = append(fails, c08Fail{"publisher topic differs from subscriber topic", fmt.Sprintf("%s op %s pub %q sub %q", l, op, p.topic, s.topic)})
+			p := get(l + ".pub")
+			for _, sk := range []string{"sub", "sube", "subt"} {
+				s := get(l + "." + sk)
+				if p == nil || s == nil {
+					continue // not an entry point of this language, or extraction failed (= a disagreement with the model)
+				}
+				if p.conflict || s.conflict {
+					fails = append(fails, c08Fail{"two functions of the same entry point give different topics within one language", l + " op " + op})
+					continue
+				}
+				if p.ok && s.ok && (p.topic != s.topic || p.tmpl != s.tmpl) {
+					fails = append(fails, c08Fail{"publisher topic differs from subscriber topic", fmt.Sprintf("%s op %s pub %q %s %q", l, op, p.topic, sk, s.topic)})
+				}
 			}
 		}
 		// every language = spec (hence all languages agree)
@@ -801,10 +1074,7 @@ func c08Oracle(c c08Case, r c08Result) (fails []c08Fail, knownTitle bool) {
 				continue
 			}
 			if cell.topic != want {
-				what := "topic differs from the spec string (prefix, scope name, operation joined by the delimiter)"
-				if lang == "go" {
-					what = "Go topic differs from the spec string and from the other languages (delimiter between scope and operation)"
-				}
+				what := "topic differs from the spec string (prefix with the arguments substituted in order, scope name, operation joined by the delimiter)"
 				fails = append(fails, c08Fail{what, fmt.Sprintf("%s op %s got %q want %q", col, op, cell.topic, want)})
 			}
 		}
@@ -951,10 +1221,14 @@ func genC08(r *Rng) (c c08Case, kind string) {
 	}
 	kind = "valid"
 	ntok := r.Pick(0, 0, 1, 1, 2, 2, 3, 3, 4, 5)
+	pvar := 45
+	if r.Chance(35) { // scopes with 2–4 variables: the binding of arguments to variables matters
+		ntok, pvar = 2+r.Intn(4), 75
+	}
 	nvars := 0
 	var toks []string
 	for i := 0; i < ntok; i++ {
-		if nvars < 4 && r.Chance(45) {
+		if nvars < 4 && r.Chance(pvar) {
 			v := c08VarName(r)
 			if seen[strings.ToLower(v)] {
 				i--
@@ -985,8 +1259,17 @@ func genC08(r *Rng) (c c08Case, kind string) {
 			nv++
 		}
 	}
-	for i := 0; i < nv; i++ {
-		c.vals = append(c.vals, c08Value(r))
+	// pairwise DIFFERENT runtime values: a permuted, dropped or duplicated variable anywhere between
+	// the public entry point and the prefix expression then changes the topic
+	for len(c.vals) < nv {
+		v := c08Value(r)
+		dup := false
+		for _, w := range c.vals {
+			dup = dup || w == v
+		}
+		if !dup {
+			c.vals = append(c.vals, v)
+		}
 	}
 	return
 }
